@@ -93,6 +93,12 @@ def make_tree(root, rng, variant):
     must.add("empty.go")
     nofuncs.add("empty.go")
     # vendor / hidden directories
+    # generated-code style: a //line directive that names another file (goyacc, cgo, ragel output); the
+    # functions below it still live in THIS file at their physical lines
+    files["gen/parser.go"] = ("package gen\n\nfunc Before(a int) int { return a + 1 }\n\n//line grammar.y:42\nfunc Reduce(a int) int {\n"
+                              "\tf := func(x int) int { return x * 2 }\n\treturn f(a)\n}\n\ntype Lexer struct{ n int }\n\n"
+                              "//line grammar.y:90\nfunc (l *Lexer) Next() int {\n\tl.n++\n\treturn l.n\n}\n")
+    must.add("gen/parser.go")
     files["vendor/dep/d.go"] = "package dep\n\nfunc Dep() int { return 1 }\n"
     files[".git/hooks/h.go"] = "package hooks\n\nfunc Hook() int { return 1 }\n"
     files["a/.cache/c.go"] = "package cache\n\nfunc Cached() int { return 1 }\n"
